@@ -226,3 +226,27 @@ def run(ctx):
     from engine.strgrow import str_grow
     str_grow(ctx, prog)
 
+    ctx.rule('ENDIAN-ONCE', 'WAV is written and parsed in the byte order announced by its RIFF / RIFX marker (psf->rwf_endian, set once): in wav.c and wavlike.c no psf_binheader_readf / '
+             'psf_binheader_writef format names a byte order (`e` / `E`, which stay in force for every following field) except the one that emits the RIFF / RIFX marker itself', floor=80)
+    neo = 0
+    for g in sorted(prog.lib_fns(), key=lambda g: (g.file, g.line)):
+        if g.file.split('/')[-1] not in ('wav.c', 'wavlike.c'):
+            continue
+        for c in g.calls(('psf_binheader_readf', 'psf_binheader_writef')):
+            fm = g.unwrap(g.args(c)[1])
+            fs_ = fm.get('s') if fm.get('k') == 'StringLiteral' else None
+            if fs_ is None:
+                continue
+            neo += 1
+            if not any(ch in 'eE' for ch in fs_):
+                ctx.rules['ENDIAN-ONCE']['inst'].append({'key': '%s@%d' % (g.name, neo), 'ok': True, 'where': g.loc(c), 'msg': 'format "%s" names no byte order' % fs_, 'fact': None})
+                continue
+            def mk(t):
+                a_, b_, c_, d_ = [ord(ch) for ch in t]
+                return {a_ | (b_ << 8) | (c_ << 16) | (d_ << 24), (a_ << 24) | (b_ << 16) | (c_ << 8) | d_}
+            marks = mk('RIFF') | mk('RIFX')
+            ismark = any(x.get('m') in ('RIFF_MARKER', 'RIFX_MARKER') or (x.get('v') in marks) for a in g.args(c) for x in g.walk(g.unwrap(a)))
+            ctx.ob('ENDIAN-ONCE', '%s:"%s"' % (g.name, fs_), ismark, g.loc(c), 'format "%s" %s' % (fs_, 'emits the RIFF / RIFX marker' if ismark else
+                   'switches the byte order for this and every following field: on a big-endian (RIFX) file the chunk and everything after it (including the data chunk size, and on reading the sample byte order) is handled little-endian'), None)
+    ctx.require(neo >= 80, 'only %d binheader calls found in wav.c / wavlike.c' % neo)
+
